@@ -769,14 +769,11 @@ Section Meta.
     destruct (p_sum st =? f_sum l); cbn; discriminate.
   Qed.
 
-  (** The call keeps the entry in step with the files unless it is a failed
-      change of the URL of a list: that one forgets the checksum (see
-      [failed_url_change_forgets_checksum]). *)
+  (** The call keeps the entry in step with the files. *)
   Lemma set_entry_ok f name nurl dup en o fs : list_ok fs f ->
-    f_url f = nurl \/ en = false \/ ~ fails crc o ->
     let '(_, _, f', fs') := set_entry f name nurl dup en o fs in list_ok fs' f'.
   Proof.
-    intros OK Hc. unfold Refresh.set_entry. destruct (_ && dup); [exact OK|].
+    intros OK. unfold Refresh.set_entry. destruct (_ && dup); [exact OK|].
     destruct en.
     - destruct (negb (f_url f =? nurl) || negb (Bool.eqb (f_enabled f) true)) eqn:R.
       + set (f1 := set_target f name nurl true).
@@ -788,17 +785,11 @@ Section Meta.
         assert (F0 : f_count f1 = 0 /\ f_sum f1 = 0).
         { unfold f1, set_target. destruct Z0 as [->|Z0]; cbn [negb f_count f_sum]; [auto|].
           destruct (negb _); cbn [f_count f_sum]; auto. }
-        pose proof (update_one_err_fails f1 o fs) as EF.
         pose proof (update_one_cases crc f1 o fs) as C. destruct (update_one f1 o fs) as [u fs'].
-        cbn [fst] in EF.
         destruct C as [(U & -> & L)|(d & re & st & _ & P & _ & U & E & L & -> & st' & P' & O' & C' & S')].
         * rewrite U. destruct (u_err u) eqn:Er.
-          -- (* an error: everything but the checksum is put back *)
-             unfold restored_sum. rewrite L.
-             destruct (N.eqb_spec (f_url f) nurl) as [Eu|Nu].
-             ++ unfold f1, set_target. rewrite (proj2 (N.eqb_eq _ _) Eu). cbn [negb f_sum].
-                unfold list_ok in *. cbn [f_enabled f_id f_count f_sum]. exact OK.
-             ++ exfalso. destruct Hc as [Hc|[Hc|Hc]]; [contradiction|discriminate|]. apply Hc, EF. reflexivity.
+          -- (* an error: everything is put back *)
+             unfold restored_sum. unfold list_ok in *. cbn [f_enabled f_id f_count f_sum]. exact OK.
           -- rewrite L. unfold list_ok. unfold f1 at 1. rewrite set_target_enabled.
              unfold f1 at 1. rewrite set_target_id, fget_fdel_eq. exact F0.
         * rewrite U, E, L. unfold list_ok. cbn [f_enabled f_id f_count f_sum filled].
@@ -812,7 +803,6 @@ Section Meta.
 
   Lemma set_in_spec : forall ls url name nurl dup en o fs,
     NoDup (map f_id ls) -> Forall (list_ok fs) ls ->
-    url = nurl \/ en = false \/ ~ fails crc o ->
     match set_in ls url name nurl dup en o fs with
     | None => True
     | Some (_, _, ls', fs') =>
@@ -820,11 +810,10 @@ Section Meta.
         (forall j, ~ In j (map f_id ls) -> fentry j fs' = fentry j fs)
     end.
   Proof.
-    induction ls as [|f ls IH]; intros url name nurl dup en o fs ND OK Hc; cbn [Refresh.set_in]; auto.
+    induction ls as [|f ls IH]; intros url name nurl dup en o fs ND OK; cbn [Refresh.set_in]; auto.
     inversion ND as [|? ? Hn ND']; subst. inversion OK as [|? ? OKf OKr]; subst.
     destruct (N.eqb_spec (f_url f) url) as [E|E].
-    - assert (Hc' : f_url f = nurl \/ en = false \/ ~ fails crc o) by (rewrite E; exact Hc).
-      pose proof (set_entry_ok f name nurl dup en o fs OKf Hc') as S.
+    - pose proof (set_entry_ok f name nurl dup en o fs OKf) as S.
       pose proof (set_entry_id f name nurl dup en o fs) as I.
       pose proof (set_entry_other f name nurl dup en o fs) as X.
       destruct (set_entry f name nurl dup en o fs) as [[[rs er] f'] fs']. cbn [fst snd] in *.
@@ -832,7 +821,7 @@ Section Meta.
       + constructor; auto. eapply forall_ok_transfer; [|exact OKr]. intros l Hl. apply X.
         intros E2. apply Hn. rewrite E2. now apply in_map.
       + intros j Hj. apply X. intros E2. apply Hj. left. exact E2.
-    - specialize (IH url name nurl dup en o fs ND' OKr Hc).
+    - specialize (IH url name nurl dup en o fs ND' OKr).
       destruct (set_in ls url name nurl dup en o fs) as [[[[rs er] ls'] fs']|]; auto.
       destruct IH as (I & O & X). split; [cbn; now rewrite I|]. split.
       + constructor; auto. eapply list_ok_fentry; [|exact OKf]. now apply X.
@@ -847,23 +836,19 @@ Section Meta.
     rewrite IH; auto. intros Hin. apply H. now right.
   Qed.
 
-  (** A set_url call that is not a failing change of a list's URL. *)
-  Definition set_keeps_checksum (url nurl : N) (en : bool) (o : outcome) : Prop :=
-    url = nurl \/ en = false \/ ~ fails crc o.
-
   Theorem set_props_wf allow url name nurl en o st :
-    wf st -> set_keeps_checksum url nurl en o -> wf (snd (set_props allow url name nurl en o st)).
+    wf st -> wf (snd (set_props allow url name nurl en o st)).
   Proof.
-    intros [ND OK] Hc. rewrite map_app in ND. apply Forall_app in OK. destruct OK as [OKb OKa].
+    intros [ND OK]. rewrite map_app in ND. apply Forall_app in OK. destruct OK as [OKb OKa].
     pose proof (nodup_app_l _ _ ND) as NDb. pose proof (nodup_app_r _ _ ND) as NDa.
     unfold Refresh.set_props. destruct allow.
-    - pose proof (set_in_spec (r_allow st) url name nurl (url_used nurl st) en o (r_files st) NDa OKa Hc) as S.
+    - pose proof (set_in_spec (r_allow st) url name nurl (url_used nurl st) en o (r_files st) NDa OKa) as S.
       destruct (set_in _ url name nurl _ en o _) as [[[[rs er] ls'] fs']|]; [|split; [now rewrite map_app|now apply Forall_app]].
       destruct S as (I & O & X). unfold wf. cbn [snd r_block r_allow r_files]. split.
       + now rewrite map_app, I.
       + apply Forall_app. split; auto. eapply forall_ok_transfer; [|exact OKb]. intros l Hl. apply X.
         apply (nodup_app_disjoint _ _ (f_id l) ND). now apply in_map.
-    - pose proof (set_in_spec (r_block st) url name nurl (url_used nurl st) en o (r_files st) NDb OKb Hc) as S.
+    - pose proof (set_in_spec (r_block st) url name nurl (url_used nurl st) en o (r_files st) NDb OKb) as S.
       destruct (set_in _ url name nurl _ en o _) as [[[[rs er] ls'] fs']|]; [|split; [now rewrite map_app|now apply Forall_app]].
       destruct S as (I & O & X). unfold wf. cbn [snd r_block r_allow r_files]. split.
       + now rewrite map_app, I.
@@ -889,26 +874,20 @@ Section Meta.
 
   Definition run_hist (hs : list hop) (st : rstate) : rstate := fold_left run_hop hs st.
 
-  (** No call of the history is a failing change of a list's URL. *)
-  Definition hop_keeps_checksum (h : hop) : Prop :=
-    match h with HSet _ u _ nu en o => set_keeps_checksum u nu en o | _ => True end.
-
-  Theorem history_wf hs : forall st, wf st -> Forall hop_keeps_checksum hs -> wf (run_hist hs st).
+  Theorem history_wf hs : forall st, wf st -> wf (run_hist hs st).
   Proof.
-    unfold run_hist. induction hs as [|h hs IH]; intros st W HK; cbn [fold_left]; auto.
-    inversion HK as [|? ? Hh HK']; subst.
-    apply IH; auto. destruct h; cbn [run_hop]; [now apply refresh_wf|now apply set_props_wf|exact W].
+    unfold run_hist. induction hs as [|h hs IH]; intros st W; cbn [fold_left]; auto.
+    apply IH. destruct h; cbn [run_hop]; [now apply refresh_wf|now apply set_props_wf|exact W].
   Qed.
 
-  (** After any such history: the rule count and checksum of every enabled
-      list are those of a re-parse of its stored file, which reproduces the
-      file. *)
+  (** After any history: the rule count and checksum of every enabled list
+      are those of a re-parse of its stored file, which reproduces the file. *)
   Corollary history_meta_matches_file hs st l c :
-    wf st -> Forall hop_keeps_checksum hs -> let st' := run_hist hs st in
+    wf st -> let st' := run_hist hs st in
     In l (r_block st' ++ r_allow st') -> f_enabled l = true -> fget (f_id l) (r_files st') = Some c ->
     describes (f_count l) (f_sum l) c.
   Proof.
-    intros W HK st' Hin En G. destruct (history_wf hs st W HK) as [_ OK].
+    intros W st' Hin En G. destruct (history_wf hs st W) as [_ OK].
     pose proof (proj1 (Forall_forall _ _) OK l Hin) as H. unfold list_ok in H. fold st' in H.
     now rewrite En, G in H.
   Qed.
@@ -1102,8 +1081,7 @@ Section Meta.
     intros Ha Hp Hu En F. unfold Refresh.set_props. fold (arr allow st). rewrite Ha.
     rewrite set_in_split by auto. unfold Refresh.set_entry. rewrite Hu, N.eqb_refl, En. cbn [Bool.eqb negb andb orb].
     rewrite update_one_failed by exact F. cbn [failed_upd u_err u_updated u_list negb andb].
-    unfold restored_sum. cbn [u_list failed_upd]. unfold set_target. rewrite Hu, N.eqb_refl. cbn [negb f_sum].
-    rewrite <- Hu, <- En, flist_eta, <- Ha. rewrite rstate_arr_same. reflexivity.
+    unfold restored_sum. rewrite <- Hu, <- En, flist_eta, <- Ha. rewrite rstate_arr_same. reflexivity.
   Qed.
 
   (** A call that would give a list the URL another list (of either array)
@@ -1119,26 +1097,58 @@ Section Meta.
     rewrite <- Ha, rstate_arr_same. reflexivity.
   Qed.
 
-  (** A failed change of the URL of a list, exactly: an error is reported;
-      files, engine, every other entry and this entry's URL, name, enabled flag
-      and rule count are as before, but its checksum is zero ([unload] forgot
-      it and the restoring code does not put it back). *)
-  Theorem failed_url_change_forgets_checksum allow u name nurl o st pre f post :
+  (** A failed change of the URL of a list (new URL free, its source failing
+      in any of the enumerated ways): an error is reported and nothing changes:
+      files, engine, every entry, this entry's URL, name, enabled flag, rule
+      count and checksum. *)
+  Theorem failed_url_change_is_noop allow u name nurl o st pre f post :
     arr allow st = pre ++ f :: post -> Forall (other_url u) pre -> f_url f = u ->
     nurl <> u -> url_used nurl st = false -> fails crc o ->
-    let '(rs, er, st') := set_props allow u name nurl true o st in
-    rs = false /\ er = true /\ r_files st' = r_files st /\ r_engine st' = r_engine st /\
-    arr (negb allow) st' = arr (negb allow) st /\
-    arr allow st' = pre ++ {| f_id := f_id f; f_url := u; f_enabled := f_enabled f; f_name := f_name f;
-                              f_count := f_count f; f_sum := 0 |} :: post.
+    set_props allow u name nurl true o st = (false, true, st).
   Proof.
     intros Ha Hp Hu Nu Us F. unfold Refresh.set_props. fold (arr allow st). rewrite Ha.
     rewrite set_in_split by auto. unfold Refresh.set_entry. rewrite Us, Hu.
     replace (u =? nurl) with false by (symmetry; apply N.eqb_neq; congruence). cbn [negb andb orb].
     rewrite update_one_failed by exact F. cbn [failed_upd u_err u_updated u_list negb andb].
-    unfold restored_sum. cbn [u_list failed_upd]. unfold set_target. rewrite Hu.
-    replace (u =? nurl) with false by (symmetry; apply N.eqb_neq; congruence). cbn [negb f_sum].
-    destruct allow; cbn [arr negb r_block r_allow r_files r_engine]; repeat split; reflexivity.
+    unfold restored_sum. rewrite <- Hu, flist_eta, <- Ha, rstate_arr_same. reflexivity.
+  Qed.
+
+  (** Whatever the call was: if it reports an error, the whole state is as it
+      was before (files, entries of both arrays, engine). *)
+  Lemma set_entry_err f name nurl dup en o fs rs f' fs' :
+    set_entry f name nurl dup en o fs = (rs, true, f', fs') -> f' = f /\ fs' = fs.
+  Proof.
+    unfold Refresh.set_entry. destruct (_ && dup); [intros H; injection H as _ <- <-; auto|].
+    destruct en; [|intros H; discriminate H].
+    destruct (_ || _); [|intros H; discriminate H].
+    pose proof (update_one_err_files (set_target f name nurl true) o fs) as EF.
+    destruct (update_one (set_target f name nurl true) o fs) as [u fs1]. cbn [fst snd] in EF.
+    destruct (u_err u).
+    - intros H. injection H as _ <- <-. unfold restored_sum. rewrite flist_eta. auto.
+    - destruct (u_updated u); intros H; discriminate H.
+  Qed.
+
+  Lemma set_in_err : forall ls u name nurl dup en o fs rs ls' fs',
+    set_in ls u name nurl dup en o fs = Some (rs, true, ls', fs') -> ls' = ls /\ fs' = fs.
+  Proof.
+    induction ls as [|f ls IH]; intros u name nurl dup en o fs rs ls' fs'; cbn [Refresh.set_in]; [discriminate|].
+    destruct (f_url f =? u).
+    - pose proof (set_entry_err f name nurl dup en o fs) as Q.
+      destruct (set_entry f name nurl dup en o fs) as [[[rs0 er0] f0] fs0].
+      intros H. injection H as -> -> <- ->. destruct (Q rs f0 fs' eq_refl) as [-> ->]. auto.
+    - specialize (IH u name nurl dup en o fs).
+      destruct (set_in ls u name nurl dup en o fs) as [[[[rs0 er0] ls0] fs0]|]; [|discriminate].
+      intros H. injection H as -> -> <- ->. destruct (IH rs ls0 fs' eq_refl) as [-> ->]. auto.
+  Qed.
+
+  Theorem failed_set_is_noop allow u name nurl en o st rs st' :
+    set_props allow u name nurl en o st = (rs, true, st') -> st' = st.
+  Proof.
+    unfold Refresh.set_props.
+    pose proof (set_in_err (if allow then r_allow st else r_block st) u name nurl (url_used nurl st) en o (r_files st)) as Q.
+    destruct (set_in _ u name nurl _ en o _) as [[[[rs0 er0] ls'] fs']|]; [|intros H; injection H as _ <-; reflexivity].
+    intros H. injection H as -> -> <-. destruct (Q rs ls' fs' eq_refl) as [-> ->]. cbn [negb andb].
+    destruct st, allow; reflexivity.
   Qed.
 
   (** A call for a URL that no list of the array has is refused and changes
@@ -1242,9 +1252,8 @@ Example set_example :
 Proof. vm_compute. repeat split; congruence. Qed.
 
 (** Pointing the block list to another source puts that source's rules in
-    force and stores them; a failing change of the URL afterwards reports an
-    error and leaves file, engine, URL, name and rule count alone, but the
-    checksum of the entry is zero: the state is no longer well formed. *)
+    force and stores them; a URL another list has is refused; a failing change
+    of the URL afterwards reports an error and changes nothing. *)
 Example url_change_example :
   map f_url (r_block SetExamples.st_moved) = [101] /\
   fentry 1 (r_files SetExamples.st_moved) = Some (2, RExamples.good2) /\
@@ -1253,55 +1262,11 @@ Example url_change_example :
   set_props crc32_update false 101 [120] 11 true (OBody RExamples.good false) SetExamples.st_moved
     = (false, true, SetExamples.st_moved) /\
   set_props crc32_update false 101 [120] 102 true (OBody RExamples.html false) SetExamples.st_moved
-    = (false, true, SetExamples.st_failed) /\
-  r_files SetExamples.st_failed = r_files SetExamples.st_moved /\
-  r_engine SetExamples.st_failed = r_engine SetExamples.st_moved /\
-  map f_url (r_block SetExamples.st_failed) = [101] /\
-  map f_count (r_block SetExamples.st_failed) = [1] /\
-  map f_sum (r_block SetExamples.st_moved) <> [0] /\
-  map f_sum (r_block SetExamples.st_failed) = [0].
+    = (false, true, SetExamples.st_moved) /\
+  SetExamples.st_failed = SetExamples.st_moved /\
+  map f_count (r_block SetExamples.st_moved) = [1] /\
+  map f_sum (r_block SetExamples.st_moved) <> [0].
 Proof. vm_compute. repeat split; congruence. Qed.
 
 Example url_change_wf : wf crc32_update SetExamples.st_moved.
-Proof.
-  apply set_props_wf; [exact (proj2 wf_example)|]. right. right. vm_compute. intros H. now apply H.
-Qed.
-
-(** The intended clause: a set_url call that reports an error leaves the
-    whole state as it was. *)
-Definition failed_set_is_noop_statement (crc : N -> bytes -> N) : Prop :=
-  forall allow u name nurl en o st rs st',
-    wf crc st -> set_props crc allow u name nurl en o st = (rs, true, st') -> st' = st.
-
-Theorem failed_set_is_noop_refuted : ~ failed_set_is_noop_statement crc32_update.
-Proof.
-  intros H.
-  destruct url_change_example as (_ & _ & _ & _ & _ & _ & E & _ & _ & _ & _ & A & B).
-  specialize (H false 101 [120] 102 true (OBody RExamples.html false) SetExamples.st_moved false SetExamples.st_failed
-                url_change_wf E).
-  apply A. rewrite <- H. exact B.
-Qed.
-
-(** ... and the metadata do not stay in step with the files over histories
-    that contain a failing change of a URL. *)
-Definition metadata_in_step_statement (crc : N -> bytes -> N) : Prop :=
-  forall hs st, wf crc st -> wf crc (run_hist crc hs st).
-
-Lemma st_failed_facts :
-  r_block SetExamples.st_failed ++ r_allow SetExamples.st_failed
-  = [{| f_id := 1; f_url := 101; f_enabled := true; f_name := [120]; f_count := 1; f_sum := 0 |};
-     {| f_id := 11; f_url := 11; f_enabled := true; f_name := [76; 105; 115; 116; 32; 49; 49]; f_count := 1;
-        f_sum := f_sum (hd (RExamples.mk 0) (r_allow SetExamples.st_failed)) |}] /\
-  fget 1 (r_files SetExamples.st_failed) = Some RExamples.good2 /\
-  p_sum (fst (parse crc32_update RExamples.good2 false)) <> 0.
-Proof. vm_compute. repeat split; congruence. Qed.
-
-Theorem metadata_in_step_refuted : ~ metadata_in_step_statement crc32_update.
-Proof.
-  intros H.
-  pose proof (H [HSet false 101 [120] 102 true (OBody RExamples.html false)] SetExamples.st_moved url_change_wf) as W.
-  change (wf crc32_update SetExamples.st_failed) in W.
-  destruct st_failed_facts as (L & G & Q). destruct W as [_ OK]. rewrite L in OK. apply Forall_inv in OK.
-  unfold list_ok in OK. cbn [f_enabled f_id f_count f_sum] in OK. rewrite G in OK.
-  destruct OK as (pst & P & _ & _ & S). rewrite P in Q. now apply Q.
-Qed.
+Proof. apply set_props_wf. exact (proj2 wf_example). Qed.
